@@ -56,6 +56,7 @@ type Task struct {
 	FailAt  int // 1-based index of the faultable op to fail (0: none)
 	FailAs  Fault
 	faultN  int // faultable ops seen so far
+	FaultDesc string // descriptor of the operation that received the FailAt fault
 	Crashed bool
 }
 
@@ -402,6 +403,7 @@ func (s *Sim) decideFault(p *parked) Fault {
 	t := p.task
 	t.faultN++
 	if t.FailAt > 0 && t.faultN == t.FailAt {
+		t.FaultDesc = p.desc
 		f := t.FailAs
 		if f == FaultNone {
 			f = FaultErrNA
